@@ -281,6 +281,7 @@ func TestVerifC02(t *testing.T) {
 	}
 	rep.Set("configurations", int64(len(cfgs)))
 	c02BoundaryWalk(rep, seed)
+	c02Faults(rep, seed)
 }
 
 // c02BoundaryWalk: scripted boundary cases with the default window of 100 (not enumerated; stated in the evidence).
@@ -307,8 +308,8 @@ func c02BoundaryWalk(rep *vrep.Report, seed int64) {
 		}
 	}
 	stepFail("at-registered-counter", 1)
-	step("last-of-window-first", 101, true)  // c=1, w=100: 2..101 openable
-	step("window-slid-by-one", 102, true)    // one opened: ..102
+	step("last-of-window-first", 101, true) // c=1, w=100: 2..101 openable
+	step("window-slid-by-one", 102, true)   // one opened: ..102
 	step("first-of-window", 2, true)
 	step("window-slid-by-two", 103, true)
 	step("reopen-last", 101, true)
@@ -316,4 +317,107 @@ func c02BoundaryWalk(rep *vrep.Report, seed int64) {
 	step("middle", 50, true)
 	stepFail("at-registered-counter-again", 1)
 	rep.Note("default window 100 is covered by one scripted boundary walk only (9 steps), not enumerated")
+}
+
+// c02Faults: one transient storage fault during an open, then the retry the property speaks of. For every datastore
+// operation an open (or a registration) performs, that one operation fails; whatever the faulted call returned, a
+// successful open must carry the original payload, and after the fault has gone the retried message and every
+// message the reference calls openable must open.
+func c02Faults(rep *vrep.Report, seed int64) {
+	ctx := context.Background()
+	for _, batched := range []bool{false, true} {
+		cfg := c02Cfg{Kind: "multimember", W: 2, N: 5, C: []int{0}, Senders: 1}
+		g, R0, ss := c02Build(seed, cfg)
+		s := ss[0]
+		if batched {
+			b := newMemDS(true)
+			b.m = R0.ds.clone().m
+			R0 = R0.onDS(b)
+		}
+		type base struct {
+			name   string
+			prep   func(R *party)
+			opened int
+		}
+		bases := []base{
+			{"registered", func(R *party) { must(R.st.RegisterChainKey(ctx, g, s.p.md(g).Device(), s.anns[0])) }, 0},
+			{"registered, 1 opened", func(R *party) {
+				must(R.st.RegisterChainKey(ctx, g, s.p.md(g).Device(), s.anns[0]))
+				R.open(g, s.envs[0])
+			}, 1},
+		}
+		for _, b := range bases {
+			for _, target := range []string{"open(1)", "open(2)", "open(3)", "register"} {
+				run := func(R *party) (ok bool, k int) {
+					switch target {
+					case "register":
+						return R.st.RegisterChainKey(ctx, g, s.p.md(g).Device(), s.anns[0]) == nil, 0
+					}
+					fmt.Sscanf(target, "open(%d)", &k)
+					r := R.open(g, s.envs[k-1])
+					if r.ok && (!bytes.Equal(r.payload, s.pay[k-1]) || r.counter != uint64(k)) {
+						rep.Violation("C02/wrong-content", fmt.Sprintf("%s under a storage fault returned other content", target), map[string]interface{}{"target": target})
+					}
+					return r.ok, k
+				}
+				if target == "open(3)" && b.opened == 0 {
+					continue // beyond the window in this state
+				}
+				S0 := R0.cloneParty()
+				b.prep(S0)
+				n := 0
+				dry := S0.cloneParty()
+				dry.ds.fail = func(op, key string) error { n++; return nil }
+				run(dry)
+				for i := 0; i < n; i++ {
+					P := S0.cloneParty()
+					cnt := 0
+					var failedOp string
+					P.ds.fail = func(op, key string) error {
+						cnt++
+						if cnt-1 == i {
+							failedOp = op + " " + key
+							return fmt.Errorf("injected: database is locked")
+						}
+						return nil
+					}
+					ok1, k := run(P)
+					P.ds.fail = nil
+					rep.AddTransitions(1)
+					// the fault is gone: retry, then everything the reference calls openable
+					opened := map[int]bool{}
+					if b.opened == 1 {
+						opened[1] = true
+					}
+					cls := "ok"
+					var firstBad string
+					try := func(j int) {
+						r := P.open(g, s.envs[j-1])
+						if !r.ok {
+							cls = "not-openable-after-fault"
+							if firstBad == "" {
+								firstBad = fmt.Sprintf("message %d: %s", j, r.err)
+							}
+							return
+						}
+						if !bytes.Equal(r.payload, s.pay[j-1]) {
+							cls = "wrong-content"
+						}
+						opened[j] = true
+					}
+					if k > 0 {
+						try(k)
+					}
+					for j := 1; j <= cfg.N && j <= cfg.W+len(opened); j++ {
+						try(j)
+					}
+					rep.Eval(fmt.Sprintf("fault/%s/%s/%s/faulted-call-ok=%v/%s", b.name, target, strings.SplitN(failedOp, " ", 2)[0], ok1, cls))
+					if cls != "ok" {
+						rep.Violation("C02/"+cls, fmt.Sprintf("state '%s' (batched=%v): datastore operation %d of %d of %s (%s) fails once; after the fault has gone: %s (opened so far %v)", b.name, batched, i, n, target, failedOp, firstBad, opened), map[string]interface{}{"state": b.name, "target": target, "fault_at": i, "batched": batched})
+					}
+				}
+			}
+		}
+		rep.Sample(map[string]interface{}{"part": "one storage fault, then retry", "batched": batched, "window": cfg.W})
+	}
 }
